@@ -153,13 +153,18 @@ func verif_ControlManager_Del(cm *ControlManager, runID string, ctl *Control, q 
 	}
 }
 
+// (The session found may only be used after the found check: callers get a
+// pointer they must not dereference blindly - C16: an unknown run id comes
+// from any unauthenticated peer.)
+//
+//verif:nullable-result (*~/server.ControlManager).GetByID
 //verif:contract (*~/server.ControlManager).GetByID
-//verif:props C12 C04
+//verif:props C12 C04 C16
 func verif_ControlManager_GetByID(cm *ControlManager, runID string) {
 	c0, had := cm.ctlsByRunID[runID]
 	ctl, ok := cm.GetByID(runID)
 	verif.Ensures(ok == had && ctl == c0, "lookup_is_table")
-	verif.Ensures(!ok || ctl != nil || c0 == nil, "found_means_entry")
+	verif.Ensures(!ok || ctl != nil, "found_session_is_not_nil")
 }
 
 // ---------------------------------------------------------------- C04 / C12 / C15: login
@@ -259,7 +264,7 @@ func verif_handlePing(ctl *Control, m msg.Message) {
 // run id is refused; nothing the visitor sends can choose the user.
 //
 //verif:contract (*~/server.Service).RegisterVisitorConn
-//verif:props C08
+//verif:props C08 C16
 func verif_RegisterVisitorConn(svr *Service, visitorConn net.Conn, newMsg *msg.NewVisitorConn) {
 	runID := newMsg.RunID
 	ctl0, ok0 := svr.ctlManager.ctlsByRunID[runID]
@@ -274,6 +279,7 @@ func verif_RegisterVisitorConn(svr *Service, visitorConn net.Conn, newMsg *msg.N
 			verif.Ensures(verif.CalledWith(evNewConn, 7, ""), "legacy_visitor_has_empty_user")
 		}
 		verif.Ensures(verif.CalledWith(evNewConn, 1, newMsg.ProxyName) && verif.CalledWith(evNewConn, 3, newMsg.Timestamp) && verif.CalledWith(evNewConn, 4, newMsg.SignKey), "request_passed_unchanged")
+		verif.Ensures(verif.Same(verif.NthArg[any](evNewConn, 0, 2), any(visitorConn)) && verif.CalledWith(evNewConn, 5, newMsg.UseEncryption) && verif.CalledWith(evNewConn, 6, newMsg.UseCompression), "declared_layers_passed_in_their_own_slots")
 		verif.Ensures(err == verif.RetErr(evNewConn, 0), "result_is_managers")
 	} else {
 		verif.Ensures(err != nil, "not_forwarded_means_error")
@@ -443,7 +449,7 @@ func verif_GetWorkConn(ctl *Control) {
 // the connection is closed as well.
 //
 //verif:contract (*~/server.Service).handleConnection
-//verif:props C17 C16
+//verif:props C17 C16 C04 C11 C15
 func verif_handleConnection(svr *Service, ctx context.Context, conn net.Conn, internal bool) {
 	verif.ResetEvents()
 	svr.handleConnection(ctx, conn, internal)
@@ -465,6 +471,12 @@ func verif_handleConnection(svr *Service, ctx context.Context, conn net.Conn, in
 		}
 		if isLogin {
 			verif.Ensures(!verif.Called("Service).RegisterWorkConn") && !verif.Called("Service).RegisterVisitorConn"), "login_opens_only_a_session")
+			// C15 "plugins see each other's edits": the session is opened with the
+			// login message the plugin chain returned, not the one the client sent
+			if verif.Called("Service).RegisterControl") {
+				ret := verif.Ret[*plugin.LoginContent]("Manager).Login", 0)
+				verif.Ensures(verif.Called("Manager).Login") && verif.RetErr("Manager).Login", 1) == nil && ret != nil && verif.NthArg[*msg.Login]("Service).RegisterControl", 0, 2) == &ret.Login, "session_opened_with_the_login_the_plugins_returned")
+			}
 			if !verif.Called("Service).RegisterControl") || verif.RetErr("Service).RegisterControl", 0) != nil {
 				verif.Ensures(closed, "refused_login_disconnects")
 			}
@@ -551,7 +563,7 @@ func verif_heartbeat_watchdog() {
 // the type it asserts, and nothing else.
 //
 //verif:contract (*~/server.Control).registerMsgHandlers
-//verif:props C16 C17
+//verif:props C16 C17 C12
 func verif_registerMsgHandlers(ctl *Control) {
 	verif.Requires(msg.VerifDispatcherOK(ctl.msgDispatcher), "dispatcher_built")
 	verif.ResetEvents()
@@ -570,6 +582,13 @@ func verif_registerMsgHandlers(ctl *Control) {
 	verif.Ensures(t3 && verif.HandlerName(verif.NthArg[func(msg.Message)](ev, 3, 2)) == "handleNatHoleClient", "nat_hole_client_to_its_handler")
 	verif.Ensures(t4 && verif.HandlerName(verif.NthArg[func(msg.Message)](ev, 4, 2)) == "handleNatHoleReport", "nat_hole_report_to_its_handler")
 	verif.Ensures(t5 && verif.HandlerName(verif.NthArg[func(msg.Message)](ev, 5, 2)) == "handleCloseProxy", "close_proxy_to_its_handler")
+	// C12 "sessions own their proxies": registrations, closes and heartbeats of
+	// one session are handled one after the other in the read loop, in the order
+	// the client sent them (a NewProxy overtaken by the CloseProxy that follows it
+	// would leave a proxy the client believes closed); only the NAT-hole
+	// handlers, which wait for the other party, run on their own
+	verif.Ensures(verif.HandlerWrapper(verif.NthArg[func(msg.Message)](ev, 0, 2)) == "" && verif.HandlerWrapper(verif.NthArg[func(msg.Message)](ev, 1, 2)) == "" && verif.HandlerWrapper(verif.NthArg[func(msg.Message)](ev, 5, 2)) == "", "proxy_lifecycle_messages_handled_in_order")
+	verif.Ensures(verif.HandlerWrapper(verif.NthArg[func(msg.Message)](ev, 2, 2)) == "AsyncHandler$1" && verif.HandlerWrapper(verif.NthArg[func(msg.Message)](ev, 3, 2)) == "AsyncHandler$1", "waiting_handlers_run_outside_the_read_loop")
 }
 
 // The handlers, given the type they are registered for, do not panic whatever
